@@ -236,3 +236,155 @@ pub fn iteration_orders(plan: &Plan) -> Vec<Vec<usize>> {
     .join()
     .unwrap_or_default()
 }
+
+unsafe extern "C" {
+    fn dup(fd: std::ffi::c_int) -> std::ffi::c_int;
+    fn dup2(old: std::ffi::c_int, new: std::ffi::c_int) -> std::ffi::c_int;
+}
+
+/// Whether this harness was built with the repository's real `main.rs run` mounted.
+pub fn real_main_available() -> bool {
+    cfg!(feature = "real_main")
+}
+
+/// Detach the worker's request/reply channel from fd 1, so that fd 1 and fd 2 are free to be
+/// pointed at capture files while the repository's `run` prints. Returns the reply channel.
+pub fn detach_stdout() -> Option<std::fs::File> {
+    use std::os::fd::{AsRawFd, FromRawFd};
+    // SAFETY: dup/dup2 on this process's own descriptors.
+    unsafe {
+        let proto = dup(1);
+        if proto < 0 {
+            return None;
+        }
+        let devnull = std::fs::OpenOptions::new().write(true).open("/dev/null").ok()?;
+        dup2(devnull.as_raw_fd(), 1);
+        dup2(devnull.as_raw_fd(), 2);
+        Some(std::fs::File::from_raw_fd(proto))
+    }
+}
+
+/// What the repository's own `run` printed and how `main` would have exited.
+pub struct RealRun {
+    pub stdout: String,
+    pub stderr: String,
+    pub status: i32,
+}
+
+/// Call the repository's real `main.rs run` (file reading, every stage, `collect_errors`, output
+/// formatting) on the current thread, with fd 1 / fd 2 pointed at capture files for the duration.
+/// Only `main`'s last three lines (`eprintln!("{e}"); exit(1)`) and clap are still mirrored.
+/// The caller guarantees that no other thread of this process prints meanwhile.
+#[cfg(feature = "real_main")]
+pub fn run_real(path: &str, check_only: bool, capture_dir: &Path) -> Option<RealRun> {
+    use std::io::{Read, Seek, Write};
+    use std::os::fd::AsRawFd;
+    let open = |name: &str| {
+        std::fs::OpenOptions::new()
+            .read(true)
+            .write(true)
+            .create(true)
+            .truncate(true)
+            .open(capture_dir.join(name))
+            .ok()
+    };
+    let mut out = open("inproc.out")?;
+    let mut err = open("inproc.err")?;
+    let devnull = std::fs::OpenOptions::new().write(true).open("/dev/null").ok()?;
+    let _ = std::io::stdout().flush();
+    // SAFETY: dup2 on this process's own descriptors.
+    unsafe {
+        dup2(out.as_raw_fd(), 1);
+        dup2(err.as_raw_fd(), 2);
+    }
+    let result = crate::gram_main::run(Path::new(path), check_only);
+    let status = match result {
+        Ok(()) => 0,
+        Err(e) => {
+            // `main`: `eprintln!("{e}"); exit(1);`
+            eprintln!("{e}");
+            1
+        }
+    };
+    let _ = std::io::stdout().flush();
+    // SAFETY: as above.
+    unsafe {
+        dup2(devnull.as_raw_fd(), 1);
+        dup2(devnull.as_raw_fd(), 2);
+    }
+    let mut stdout = String::new();
+    let mut stderr = String::new();
+    let mut raw = vec![];
+    out.rewind().ok()?;
+    out.read_to_end(&mut raw).ok()?;
+    stdout.push_str(&String::from_utf8_lossy(&raw));
+    raw.clear();
+    err.rewind().ok()?;
+    err.read_to_end(&mut raw).ok()?;
+    stderr.push_str(&String::from_utf8_lossy(&raw));
+    Some(RealRun { stdout, stderr, status })
+}
+
+#[cfg(not(feature = "real_main"))]
+pub fn run_real(_path: &str, _check_only: bool, _capture_dir: &Path) -> Option<RealRun> {
+    None
+}
+
+/// One simulated launch in "main" mode: the stage-level pass first (it yields the ordered
+/// `Vec<Error>` observation and, through its step-budgeted pre-flight, tells whether evaluation
+/// terminates), then the repository's real `run` for the group's command form.
+pub fn launch_main(
+    path: &str,
+    source: &str,
+    check_only: bool,
+    capture_dir: &Path,
+    plan: &Plan,
+    step_budget: u64,
+) -> Result<(Obs, Option<RealRun>, CallLog, Vec<Vec<usize>>), String> {
+    let path = path.to_owned();
+    let source = source.to_owned();
+    let plan = plan.clone();
+    let capture_dir = capture_dir.to_path_buf();
+    let handle = std::thread::Builder::new()
+        .stack_size(STACK_SIZE)
+        .spawn(move || {
+            sim_entropy::install(&plan);
+            let displacement: Vec<u8> = Vec::with_capacity(plan.skew_heap as usize);
+            std::hint::black_box(&displacement);
+            let obs = run_stub(&path, &source, step_budget);
+            let mut real = None;
+            if check_only || !obs.capped {
+                for _ in 0..plan.repeat {
+                    let _ = run_real(&path, check_only, &capture_dir);
+                }
+                real = run_real(&path, check_only, &capture_dir);
+            }
+            let orders = (2..=6usize)
+                .map(|n| {
+                    let set: std::collections::HashSet<usize> = (0..n).collect();
+                    set.into_iter().collect::<Vec<usize>>()
+                })
+                .collect();
+            drop(displacement);
+            (obs, real, sim_entropy::take_log(), orders)
+        })
+        .map_err(|e| format!("spawn failed: {e}"))?;
+    handle.join().map_err(|e| {
+        // a panic inside `run` leaves fd 1 / fd 2 on the capture files: point them away again
+        if let Ok(devnull) = std::fs::OpenOptions::new().write(true).open("/dev/null") {
+            use std::os::fd::AsRawFd;
+            // SAFETY: dup2 on this process's own descriptors.
+            unsafe {
+                dup2(devnull.as_raw_fd(), 1);
+                dup2(devnull.as_raw_fd(), 2);
+            }
+        }
+        if let Some(s) = e.downcast_ref::<String>() {
+            format!("panic: {s}")
+        } else if let Some(s) = e.downcast_ref::<&str>() {
+            format!("panic: {s}")
+        } else {
+            "panic".to_owned()
+        }
+    })
+}
